@@ -154,6 +154,11 @@ func c06(g *Gen) {
 			prelookupCase(g, i, npk, "C06")
 		}
 		g.Emit("C06.identity!", list(in, atom(strings.Join(problems, "; "))), boolS(len(problems) == 0), "identity-closure")
+		if i%3 == 2 {
+			if p2, ok := c06secondUniverse(g, i, prog); ok {
+				g.Emit("C06.identity!", list(in, atom(strings.Join(p2, "; "))), boolS(len(p2) == 0), "identity-closure", "second-universe-from-one-parser")
+			}
+		}
 		pgModule = "ex.test"
 	}
 }
